@@ -44,7 +44,7 @@ def run(ctx, res):
                             res.holds("C18.R1", fn, "keyword:" + repr(v))
                         else:
                             res.add(Finding("C18.R1", fn, "keyword:" + repr(v), "a tag/attribute name is compared with %r, which is not a documented keyword" % v, loc=T.loc(n)))
-    res.floor("C18.R1", "string literals scanned in library code", nlit, 20)
+    res.floor("C18.R1", "string literals scanned in library code", nlit, 8)
     if not [f for f in res.findings if f.rule == "C18.R1"]:
         res.holds("C18.R1", "-", "no-default-spelling", "%d string literals, none is a default delimiter or tag name" % nlit)
     # R2 integer literals
